@@ -1043,6 +1043,7 @@ int tls_record_get_handshake_certificate(const uint8_t *record, uint8_t *certs, 
 		size_t alen;
 		const uint8_t *cert;
 		size_t certlen;
+		size_t need = 0;
 
 		if (tls_uint24array_from_bytes(&a, &alen, &cp, &len) != 1) {
 			error_print();
@@ -1050,7 +1051,16 @@ int tls_record_get_handshake_certificate(const uint8_t *record, uint8_t *certs, 
 		}
 		if (x509_cert_from_der(&cert, &certlen, &a, &alen) != 1
 			|| asn1_length_is_zero(alen) != 1
-			|| x509_cert_to_der(cert, certlen, &certs, certslen) != 1) {
+			|| x509_cert_to_der(cert, certlen, NULL, &need) != 1) {
+			error_print();
+			return -1;
+		}
+		// output buffers are TLS_CONNECT.server_certs/client_certs
+		if (*certslen + need > TLS_MAX_CERTIFICATES_SIZE) {
+			error_print();
+			return -1;
+		}
+		if (x509_cert_to_der(cert, certlen, &certs, certslen) != 1) {
 			error_print();
 			return -1;
 		}
